@@ -85,13 +85,22 @@ def items(run, rng):
     for qc in QUERY_CLASSES:
         ctx = qc.SQL_CONTEXT
         name = QNAMES[qc]
-        for l, o, ob, how, pos in itertools.product(vals, vals, [False, True], ORDERS, ["top", "sub", "setop", "setop-sub", "where"]):
+        for l, o, ob, how, pos in itertools.product(vals, vals, [False, True], ORDERS, ["top", "sub", "setop", "setop-sub", "where", "over-ordered-sub", "in-ordered-sub", "orderby-text"]):
             tb = t()
             try:
-                if pos in ("top", "sub", "where"):
+                if pos in ("top", "sub", "where", "over-ordered-sub", "in-ordered-sub", "orderby-text"):
                     q = qc.from_(tb).select(tb.a)
                     if pos == "where":
                         q = q.where(tb.b == 5)
+                    # the statement's own ORDER BY is what counts, not an ORDER BY somewhere inside it
+                    if pos == "over-ordered-sub":
+                        w = P.Table("w")
+                        q = qc.from_(qc.from_(w).select(w.a, w.b).orderby(w.b)).select("a")
+                    if pos == "in-ordered-sub":
+                        w = P.Table("w")
+                        q = q.where(tb.b.isin(qc.from_(w).select(w.b).orderby(w.b)))
+                    if pos == "orderby-text":
+                        q = q.where(tb.c == "x ORDER BY y")
                     if ob:
                         q = q.orderby(tb.a)
                     q = apply_lo(q, l, o, how, qc)
@@ -154,7 +163,7 @@ def check(run: core.Run):
              "are checked against the value list. Non-trivial = distinct statements.",
         assumptions=["Ref/RowLimit.v is the row-limiting grammar of each dialect (sources cited there)",
                      "the generic Query class is judged by the PostgreSQL form (LIMIT n / OFFSET m each optional)"],
-        extra_cov={"builder_state_mismatches": len(OPS_FAIL), "exhaustive": True, "exhaustive_part": "(absent|0|positive)^2 x ORDER BY x 5 call patterns x 5 positions x 6 classes x 2 modes"})
+        extra_cov={"builder_state_mismatches": len(OPS_FAIL), "exhaustive": True, "exhaustive_part": "(absent|0|positive)^2 x ORDER BY x 5 call patterns x 8 positions x 6 classes x 2 modes"})
 
 
     for f in OPS_FAIL[:3]:
